@@ -2,22 +2,63 @@ import Goloop.Model.C20
 namespace Goloop.C20
 open Goloop
 
-/-- `k` has some value in the store -/
-def Has (store : List (Bytes × Bytes)) (k : Bytes) : Prop := ∃ v, (k, v) ∈ store
+/-- (bucket, key) has some value in the store -/
+def Has (store : List Entry) (p : Ref) : Prop := ∃ v, (p.1, p.2, v) ∈ store
 
-theorem has_iff (store : List (Bytes × Bytes)) (k : Bytes) : has store k = true ↔ Has store k := by
-  unfold has Has
-  simp only [List.any_eq_true, beq_iff_eq]
-  constructor
-  · rintro ⟨⟨k', v⟩, hm, rfl⟩; exact ⟨v, hm⟩
-  · rintro ⟨v, hm⟩; exact ⟨(k, v), hm, rfl⟩
+/-- bucket `p.1` has an outstanding request for key `p.2` -/
+def Pending (reqs : List Req) (p : Ref) : Prop := ∃ r ∈ reqs, r.key = p.2 ∧ p.1 ∈ r.bkts
 
-theorem Has.mono {st st' : List (Bytes × Bytes)} {k : Bytes} (h : ∀ e, e ∈ st → e ∈ st') :
-    Has st k → Has st' k := fun ⟨v, hv⟩ => ⟨v, h _ hv⟩
+/-- the keys of the outstanding requests, in list order -/
+def keys (reqs : List Req) : List Bytes := reqs.map (·.key)
 
-/-! ### requestData / resolveRefs -/
+/-- every stored payload is accepted by the requester of its bucket -/
+def AllDec (cfg : Cfg) (store : List Entry) : Prop := ∀ e ∈ store, (cfg.refs e.1 e.2.2).isSome = true
 
-theorem mem_insertAfter (l : List Bytes) (i : Nat) (k x : Bytes) :
+theorem Has.mono {st st' : List Entry} {p : Ref} (h : ∀ e, e ∈ st → e ∈ st') :
+    Has st p → Has st' p := fun ⟨v, hv⟩ => ⟨v, h _ hv⟩
+
+/-! ### lookup / present -/
+
+theorem lookup_mem {store : List Entry} {p : Ref} {v : Bytes} (h : lookup store p = some v) :
+    (p.1, p.2, v) ∈ store := by
+  unfold lookup at h
+  cases hf : store.find? (fun e => e.1 == p.1 && e.2.1 == p.2) with
+  | none => rw [hf] at h; cases h
+  | some e =>
+    rw [hf] at h
+    simp only [Option.map_some, Option.some.injEq] at h
+    have hm := List.mem_of_find?_eq_some hf
+    have hp := List.find?_some hf
+    simp only [Bool.and_eq_true, beq_iff_eq] at hp
+    obtain ⟨b, k, w⟩ := e
+    simp only at hp h
+    obtain ⟨rfl, rfl⟩ := hp
+    subst h
+    exact hm
+
+theorem present_has {cfg : Cfg} {store : List Entry} {p : Ref} (h : present cfg store p = true) :
+    Has store p := by
+  unfold present at h
+  cases hl : lookup store p with
+  | none => rw [hl] at h; cases h
+  | some v => exact ⟨v, lookup_mem hl⟩
+
+theorem has_present {cfg : Cfg} {store : List Entry} {p : Ref} (hd : AllDec cfg store)
+    (h : Has store p) : present cfg store p = true := by
+  obtain ⟨v, hv⟩ := h
+  unfold present
+  cases hl : lookup store p with
+  | none =>
+    exfalso
+    unfold lookup at hl
+    simp only [Option.map_eq_none_iff] at hl
+    have := List.find?_eq_none.mp hl _ hv
+    simp at this
+  | some w => exact hd _ (lookup_mem hl)
+
+/-! ### request list operations -/
+
+theorem mem_insertAfter {α : Type} (l : List α) (i : Nat) (k x : α) :
     x ∈ insertAfter l i k ↔ x = k ∨ x ∈ l := by
   unfold insertAfter
   simp only [List.mem_append, List.mem_cons]
@@ -34,13 +75,7 @@ theorem mem_insertAfter (l : List Bytes) (i : Nat) (k x : Bytes) :
       · exact Or.inl h
       · exact Or.inr (Or.inr h)
 
-theorem insertAfter_getElem? (l : List Bytes) (i j : Nat) (k : Bytes) (hj : j ≤ i) (hl : j < l.length) :
-    (insertAfter l i k)[j]? = l[j]? := by
-  unfold insertAfter
-  have h1 : j < (l.take (i + 1)).length := by simp [List.length_take]; omega
-  rw [List.getElem?_append_left h1, List.getElem?_take_of_lt (by omega)]
-
-theorem nodup_insertAfter (l : List Bytes) (i : Nat) (k : Bytes) (hn : l.Nodup) (hk : k ∉ l) :
+theorem nodup_insertAfter {α : Type} (l : List α) (i : Nat) (k : α) (hn : l.Nodup) (hk : k ∉ l) :
     (insertAfter l i k).Nodup := by
   unfold insertAfter
   have hsplit := List.take_append_drop (i + 1) l
@@ -55,448 +90,789 @@ theorem nodup_insertAfter (l : List Bytes) (i : Nat) (k : Bytes) (hn : l.Nodup) 
     · intro hab; subst hab; exact hk (List.mem_append.mpr (Or.inl ha))
     · exact h3 a ha b hb
 
-/-- the invariant on the mark: it is an index at or after `i` -/
-def MarkGe (i : Nat) : Option Nat → Prop
-  | none => False
-  | some j => i ≤ j
+theorem keys_insertAfter (l : List Req) (i : Nat) (r : Req) :
+    keys (insertAfter l i r) = insertAfter (keys l) i r.key := by
+  simp [keys, insertAfter, List.map_take, List.map_drop]
 
-theorem requestData_pos (reqs : List Bytes) (m : Option Nat) (k : Bytes) (h : k ∈ reqs) :
-    requestData reqs m k = (reqs, m) := by
-  simp [requestData, h]
+theorem hasKey_iff (reqs : List Req) (k : Bytes) : hasKey reqs k = true ↔ k ∈ keys reqs := by
+  unfold hasKey keys
+  simp only [List.any_eq_true, beq_iff_eq, List.mem_map]
 
-theorem requestData_neg_none (reqs : List Bytes) (k : Bytes) (h : k ∉ reqs) :
-    requestData reqs none k = (reqs ++ [k], none) := by
-  simp [requestData, h]
+theorem keys_addBkt (reqs : List Req) (b : Bkt) (k : Bytes) : keys (addBkt reqs b k) = keys reqs := by
+  unfold keys addBkt
+  rw [List.map_map]
+  apply List.map_congr_left
+  intro r _
+  simp only [Function.comp]
+  split <;> rfl
 
-theorem requestData_neg_some (reqs : List Bytes) (i : Nat) (k : Bytes) (h : k ∉ reqs) :
-    requestData reqs (some i) k = (insertAfter reqs i k, some (i + 1)) := by
-  simp [requestData, h]
+theorem pending_addBkt (reqs : List Req) (b : Bkt) (k : Bytes) (p : Ref) :
+    Pending (addBkt reqs b k) p ↔ Pending reqs p ∨ (p = (b, k) ∧ k ∈ keys reqs) := by
+  unfold Pending addBkt
+  constructor
+  · rintro ⟨r', hm, hk, hb⟩
+    obtain ⟨r, hr, rfl⟩ := List.mem_map.mp hm
+    by_cases hrk : r.key = k
+    · simp only [hrk, beq_self_eq_true, if_true] at hk hb
+      rcases List.mem_append.mp hb with hb | hb
+      · exact Or.inl ⟨r, hr, hrk.trans hk, hb⟩
+      · simp only [List.mem_singleton] at hb
+        refine Or.inr ⟨Prod.ext hb hk.symm, ?_⟩
+        exact List.mem_map.mpr ⟨r, hr, hrk⟩
+    · have : (r.key == k) = false := by simpa using hrk
+      simp only [this] at hk hb
+      exact Or.inl ⟨r, hr, hk, hb⟩
+  · rintro (⟨r, hr, hk, hb⟩ | ⟨rfl, hk⟩)
+    · refine ⟨_, List.mem_map.mpr ⟨r, hr, rfl⟩, ?_, ?_⟩
+      · split <;> exact hk
+      · split
+        · exact List.mem_append.mpr (Or.inl hb)
+        · exact hb
+    · obtain ⟨r, hr, hrk⟩ := List.mem_map.mp hk
+      refine ⟨_, List.mem_map.mpr ⟨r, hr, rfl⟩, ?_, ?_⟩
+      · simp only [hrk, beq_self_eq_true, if_true]
+      · simp only [hrk, beq_self_eq_true, if_true]
+        exact List.mem_append.mpr (Or.inr (List.mem_singleton.mpr rfl))
 
-theorem requestData_mem (reqs : List Bytes) (m : Option Nat) (k x : Bytes) :
-    x ∈ (requestData reqs m k).1 ↔ x = k ∨ x ∈ reqs := by
-  by_cases hk : k ∈ reqs
-  · rw [requestData_pos _ _ _ hk]
+theorem nonempty_addBkt (reqs : List Req) (b : Bkt) (k : Bytes) (h : ∀ r ∈ reqs, r.bkts ≠ []) :
+    ∀ r ∈ addBkt reqs b k, r.bkts ≠ [] := by
+  intro r' hm
+  obtain ⟨r, hr, rfl⟩ := List.mem_map.mp hm
+  split
+  · simp
+  · exact h r hr
+
+theorem pending_new (l : List Req) (b : Bkt) (k : Bytes) (p : Ref) (hk : k ∉ keys l)
+    (l' : List Req) (hl' : ∀ x, x ∈ l' ↔ x = ⟨k, [b]⟩ ∨ x ∈ l) :
+    Pending l' p ↔ Pending l p ∨ p = (b, k) := by
+  have _ := hk
+  unfold Pending
+  constructor
+  · rintro ⟨r, hm, hrk, hb⟩
+    rcases (hl' r).mp hm with rfl | hm
+    · simp only [List.mem_singleton] at hb
+      exact Or.inr (Prod.ext hb hrk.symm)
+    · exact Or.inl ⟨r, hm, hrk, hb⟩
+  · rintro (⟨r, hm, hrk, hb⟩ | rfl)
+    · exact ⟨r, (hl' r).mpr (Or.inr hm), hrk, hb⟩
+    · exact ⟨⟨k, [b]⟩, (hl' _).mpr (Or.inl rfl), rfl, List.mem_singleton.mpr rfl⟩
+
+/-! ### requestData -/
+
+theorem requestData_pos (reqs : List Req) (m : Option Nat) (b : Bkt) (k : Bytes) (h : k ∈ keys reqs) :
+    requestData reqs m b k = (addBkt reqs b k, m) := by
+  simp [requestData, (hasKey_iff reqs k).mpr h]
+
+theorem requestData_neg_none (reqs : List Req) (b : Bkt) (k : Bytes) (h : k ∉ keys reqs) :
+    requestData reqs none b k = (reqs ++ [⟨k, [b]⟩], none) := by
+  have : hasKey reqs k = false := by
+    cases hh : hasKey reqs k with
+    | false => rfl
+    | true => exact absurd ((hasKey_iff reqs k).mp hh) h
+  simp [requestData, this]
+
+theorem requestData_neg_some (reqs : List Req) (i : Nat) (b : Bkt) (k : Bytes) (h : k ∉ keys reqs) :
+    requestData reqs (some i) b k = (insertAfter reqs i ⟨k, [b]⟩, some (i + 1)) := by
+  have : hasKey reqs k = false := by
+    cases hh : hasKey reqs k with
+    | false => rfl
+    | true => exact absurd ((hasKey_iff reqs k).mp hh) h
+  simp [requestData, this]
+
+theorem requestData_pending (reqs : List Req) (m : Option Nat) (b : Bkt) (k : Bytes) (p : Ref) :
+    Pending (requestData reqs m b k).1 p ↔ Pending reqs p ∨ p = (b, k) := by
+  by_cases hk : k ∈ keys reqs
+  · rw [requestData_pos _ _ _ _ hk, pending_addBkt]
     constructor
-    · exact Or.inr
-    · rintro (rfl | h); exact hk; exact h
-  · cases m with
-    | none => rw [requestData_neg_none _ _ hk]; simp [List.mem_append, or_comm]
-    | some i => rw [requestData_neg_some _ _ _ hk]; exact mem_insertAfter reqs i k x
-
-theorem requestData_nodup (reqs : List Bytes) (m : Option Nat) (k : Bytes) (hn : reqs.Nodup) :
-    (requestData reqs m k).1.Nodup := by
-  by_cases hk : k ∈ reqs
-  · rw [requestData_pos _ _ _ hk]; exact hn
+    · rintro (h | ⟨h, _⟩)
+      · exact Or.inl h
+      · exact Or.inr h
+    · rintro (h | h)
+      · exact Or.inl h
+      · exact Or.inr ⟨h, hk⟩
   · cases m with
     | none =>
-      rw [requestData_neg_none _ _ hk]
-      show (reqs ++ [k]).Nodup
-      rw [List.nodup_append]
-      refine ⟨hn, by simp, ?_⟩
-      intro a ha b hb
-      simp at hb; subst hb
-      intro hab; subst hab; exact hk ha
-    | some i => rw [requestData_neg_some _ _ _ hk]; exact nodup_insertAfter reqs i k hn hk
+      rw [requestData_neg_none _ _ _ hk]
+      exact pending_new reqs b k p hk _ (by intro x; simp [List.mem_append, or_comm])
+    | some i =>
+      rw [requestData_neg_some _ _ _ _ hk]
+      exact pending_new reqs b k p hk _ (fun x => mem_insertAfter reqs i _ x)
 
-theorem requestData_keep (reqs : List Bytes) (m : Option Nat) (k : Bytes) (i : Nat)
-    (hm : MarkGe i m) (hl : i < reqs.length) :
-    (requestData reqs m k).1[i]? = reqs[i]? ∧ MarkGe i (requestData reqs m k).2 ∧
-      i < (requestData reqs m k).1.length := by
-  by_cases hk : k ∈ reqs
-  · rw [requestData_pos _ _ _ hk]; exact ⟨rfl, hm, hl⟩
+theorem requestData_nodup (reqs : List Req) (m : Option Nat) (b : Bkt) (k : Bytes)
+    (hn : (keys reqs).Nodup) : (keys (requestData reqs m b k).1).Nodup := by
+  by_cases hk : k ∈ keys reqs
+  · rw [requestData_pos _ _ _ _ hk, keys_addBkt]; exact hn
   · cases m with
-    | none => exact absurd hm (by simp [MarkGe])
-    | some j =>
-      rw [requestData_neg_some _ _ _ hk]
-      simp only [MarkGe] at hm
-      refine ⟨insertAfter_getElem? reqs j i k hm hl, by simp only [MarkGe]; omega, ?_⟩
-      show i < (insertAfter reqs j k).length
-      unfold insertAfter
-      simp [List.length_append, List.length_take, List.length_drop]; omega
+    | none =>
+      rw [requestData_neg_none _ _ _ hk]
+      show (keys (reqs ++ [⟨k, [b]⟩])).Nodup
+      unfold keys at hn hk ⊢
+      rw [List.map_append, List.nodup_append]
+      refine ⟨hn, by simp, ?_⟩
+      intro a ha c hc
+      simp at hc; subst hc
+      intro hab; subst hab; exact hk ha
+    | some i =>
+      rw [requestData_neg_some _ _ _ _ hk]
+      show (keys (insertAfter reqs i ⟨k, [b]⟩)).Nodup
+      rw [keys_insertAfter]
+      exact nodup_insertAfter _ i k hn hk
 
-theorem resolveRef_mem (st : List (Bytes × Bytes)) (acc : List Bytes × Option Nat) (c x : Bytes) :
-    x ∈ acc.1 → x ∈ (resolveRef st acc c).1 := by
+theorem requestData_nonempty (reqs : List Req) (m : Option Nat) (b : Bkt) (k : Bytes)
+    (h : ∀ r ∈ reqs, r.bkts ≠ []) : ∀ r ∈ (requestData reqs m b k).1, r.bkts ≠ [] := by
+  by_cases hk : k ∈ keys reqs
+  · rw [requestData_pos _ _ _ _ hk]; exact nonempty_addBkt reqs b k h
+  · cases m with
+    | none =>
+      rw [requestData_neg_none _ _ _ hk]
+      intro r hr
+      rcases List.mem_append.mp hr with hr | hr
+      · exact h r hr
+      · simp at hr; subst hr; simp
+    | some i =>
+      rw [requestData_neg_some _ _ _ _ hk]
+      intro r hr
+      rcases (mem_insertAfter reqs i _ r).mp hr with rfl | hr
+      · simp
+      · exact h r hr
+
+/-! ### resolveRef / resolveRefs -/
+
+theorem resolveRef_mono (cfg : Cfg) (st : List Entry) (acc : List Req × Option Nat) (c p : Ref) :
+    Pending acc.1 p → Pending (resolveRef cfg st acc c).1 p := by
   intro h; unfold resolveRef
   split
   · exact h
-  · exact (requestData_mem _ _ _ _).mpr (Or.inr h)
+  · exact (requestData_pending _ _ _ _ _).mpr (Or.inl h)
 
-theorem resolveRef_new (st : List (Bytes × Bytes)) (acc : List Bytes × Option Nat) (c x : Bytes) :
-    x ∈ (resolveRef st acc c).1 → x ∈ acc.1 ∨ (x = c ∧ ¬ Has st c) := by
+theorem resolveRef_new (cfg : Cfg) (st : List Entry) (acc : List Req × Option Nat) (c p : Ref) :
+    Pending (resolveRef cfg st acc c).1 p → Pending acc.1 p ∨ (p = c ∧ present cfg st c = false) := by
   unfold resolveRef
-  by_cases hh : has st c = true
-  · simp only [hh, if_true]; exact Or.inl
-  · simp only [hh]
+  by_cases hh : present cfg st c = true
+  · rw [if_pos hh]; exact Or.inl
+  · rw [if_neg hh]
     intro h
-    rcases (requestData_mem _ _ _ _).mp h with rfl | h
-    · exact Or.inr ⟨rfl, fun hH => hh ((has_iff st x).mpr hH)⟩
+    rcases (requestData_pending _ _ _ _ _).mp h with h | h
     · exact Or.inl h
+    · exact Or.inr ⟨h, by simpa using hh⟩
 
-theorem resolveRef_covers (st : List (Bytes × Bytes)) (acc : List Bytes × Option Nat) (c : Bytes) :
-    Has st c ∨ c ∈ (resolveRef st acc c).1 := by
+theorem resolveRef_covers (cfg : Cfg) (st : List Entry) (acc : List Req × Option Nat) (c : Ref) :
+    Has st c ∨ Pending (resolveRef cfg st acc c).1 c := by
   unfold resolveRef
-  by_cases hh : has st c = true
-  · exact Or.inl ((has_iff st c).mp hh)
-  · simp only [hh]
-    exact Or.inr ((requestData_mem _ _ _ _).mpr (Or.inl rfl))
+  by_cases hh : present cfg st c = true
+  · exact Or.inl (present_has hh)
+  · rw [if_neg hh]
+    exact Or.inr ((requestData_pending _ _ _ _ _).mpr (Or.inr rfl))
 
-theorem resolveRef_nodup (st : List (Bytes × Bytes)) (acc : List Bytes × Option Nat) (c : Bytes)
-    (hn : acc.1.Nodup) : (resolveRef st acc c).1.Nodup := by
+theorem resolveRef_nodup (cfg : Cfg) (st : List Entry) (acc : List Req × Option Nat) (c : Ref)
+    (hn : (keys acc.1).Nodup) : (keys (resolveRef cfg st acc c).1).Nodup := by
   unfold resolveRef; split
   · exact hn
-  · exact requestData_nodup _ _ _ hn
+  · exact requestData_nodup _ _ _ _ hn
 
-theorem resolveRef_keep (st : List (Bytes × Bytes)) (acc : List Bytes × Option Nat) (c : Bytes) (i : Nat)
-    (hm : MarkGe i acc.2) (hl : i < acc.1.length) :
-    (resolveRef st acc c).1[i]? = acc.1[i]? ∧ MarkGe i (resolveRef st acc c).2 ∧
-      i < (resolveRef st acc c).1.length := by
+theorem resolveRef_nonempty (cfg : Cfg) (st : List Entry) (acc : List Req × Option Nat) (c : Ref)
+    (h : ∀ r ∈ acc.1, r.bkts ≠ []) : ∀ r ∈ (resolveRef cfg st acc c).1, r.bkts ≠ [] := by
   unfold resolveRef; split
-  · exact ⟨rfl, hm, hl⟩
-  · exact requestData_keep _ _ _ _ hm hl
+  · exact h
+  · exact requestData_nonempty _ _ _ _ h
 
-theorem resolveRefs_cons (st : List (Bytes × Bytes)) (acc : List Bytes × Option Nat) (c : Bytes) (cs : List Bytes) :
-    resolveRefs st acc (c :: cs) = resolveRefs st (resolveRef st acc c) cs := rfl
+theorem resolveRefs_cons (cfg : Cfg) (st : List Entry) (acc : List Req × Option Nat) (c : Ref)
+    (cs : List Ref) :
+    resolveRefs cfg st acc (c :: cs) = resolveRefs cfg st (resolveRef cfg st acc c) cs := rfl
 
-theorem resolveRefs_mem (st : List (Bytes × Bytes)) (cs : List Bytes) :
-    ∀ (acc : List Bytes × Option Nat) (x : Bytes), x ∈ acc.1 → x ∈ (resolveRefs st acc cs).1 := by
+theorem resolveRefs_mono (cfg : Cfg) (st : List Entry) (cs : List Ref) :
+    ∀ (acc : List Req × Option Nat) (p : Ref), Pending acc.1 p → Pending (resolveRefs cfg st acc cs).1 p := by
   induction cs with
-  | nil => intro acc x h; exact h
+  | nil => intro acc p h; exact h
   | cons c cs ih =>
-    intro acc x h
+    intro acc p h
     rw [resolveRefs_cons]
-    exact ih _ x (resolveRef_mem st acc c x h)
+    exact ih _ p (resolveRef_mono cfg st acc c p h)
 
-theorem resolveRefs_new (st : List (Bytes × Bytes)) (cs : List Bytes) :
-    ∀ (acc : List Bytes × Option Nat) (x : Bytes), x ∈ (resolveRefs st acc cs).1 →
-      x ∈ acc.1 ∨ (x ∈ cs ∧ ¬ Has st x) := by
+theorem resolveRefs_new (cfg : Cfg) (st : List Entry) (cs : List Ref) :
+    ∀ (acc : List Req × Option Nat) (p : Ref), Pending (resolveRefs cfg st acc cs).1 p →
+      Pending acc.1 p ∨ (p ∈ cs ∧ present cfg st p = false) := by
   induction cs with
-  | nil => intro acc x h; exact Or.inl h
+  | nil => intro acc p h; exact Or.inl h
   | cons c cs ih =>
-    intro acc x h
+    intro acc p h
     rw [resolveRefs_cons] at h
-    rcases ih _ x h with h | ⟨h1, h2⟩
-    · rcases resolveRef_new st acc c x h with h | ⟨rfl, h2⟩
+    rcases ih _ p h with h | ⟨h1, h2⟩
+    · rcases resolveRef_new cfg st acc c p h with h | ⟨rfl, h2⟩
       · exact Or.inl h
       · exact Or.inr ⟨List.mem_cons_self, h2⟩
     · exact Or.inr ⟨List.mem_cons_of_mem _ h1, h2⟩
 
-theorem resolveRefs_covers (st : List (Bytes × Bytes)) (cs : List Bytes) :
-    ∀ (acc : List Bytes × Option Nat) (c : Bytes), c ∈ cs → Has st c ∨ c ∈ (resolveRefs st acc cs).1 := by
+theorem resolveRefs_covers (cfg : Cfg) (st : List Entry) (cs : List Ref) :
+    ∀ (acc : List Req × Option Nat) (c : Ref), c ∈ cs →
+      Has st c ∨ Pending (resolveRefs cfg st acc cs).1 c := by
   induction cs with
   | nil => intro acc c h; cases h
   | cons c0 cs ih =>
     intro acc c h
     rw [resolveRefs_cons]
     rcases List.mem_cons.mp h with rfl | h
-    · rcases resolveRef_covers st acc c with h | h
+    · rcases resolveRef_covers cfg st acc c with h | h
       · exact Or.inl h
-      · exact Or.inr (resolveRefs_mem st cs _ c h)
+      · exact Or.inr (resolveRefs_mono cfg st cs _ c h)
     · exact ih _ c h
 
-theorem resolveRefs_nodup (st : List (Bytes × Bytes)) (cs : List Bytes) :
-    ∀ (acc : List Bytes × Option Nat), acc.1.Nodup → (resolveRefs st acc cs).1.Nodup := by
+theorem resolveRefs_nodup (cfg : Cfg) (st : List Entry) (cs : List Ref) :
+    ∀ (acc : List Req × Option Nat), (keys acc.1).Nodup → (keys (resolveRefs cfg st acc cs).1).Nodup := by
   induction cs with
   | nil => intro acc h; exact h
   | cons c cs ih =>
     intro acc h
     rw [resolveRefs_cons]
-    exact ih _ (resolveRef_nodup st acc c h)
+    exact ih _ (resolveRef_nodup cfg st acc c h)
 
-theorem resolveRefs_keep (st : List (Bytes × Bytes)) (cs : List Bytes) (i : Nat) :
-    ∀ (acc : List Bytes × Option Nat), MarkGe i acc.2 → i < acc.1.length →
-      (resolveRefs st acc cs).1[i]? = acc.1[i]? := by
+theorem resolveRefs_nonempty (cfg : Cfg) (st : List Entry) (cs : List Ref) :
+    ∀ (acc : List Req × Option Nat), (∀ r ∈ acc.1, r.bkts ≠ []) →
+      ∀ r ∈ (resolveRefs cfg st acc cs).1, r.bkts ≠ [] := by
   induction cs with
-  | nil => intro acc _ _; rfl
+  | nil => intro acc h; exact h
   | cons c cs ih =>
-    intro acc hm hl
+    intro acc h
     rw [resolveRefs_cons]
-    obtain ⟨h1, h2, h3⟩ := resolveRef_keep st acc c i hm hl
-    rw [ih _ h2 h3, h1]
+    exact ih _ (resolveRef_nonempty cfg st acc c h)
 
-/-! ### erasing the served request -/
+/-! ### the requester loop -/
 
-theorem mem_eraseIdx_nodup (l : List Bytes) (i : Nat) (k x : Bytes) (hn : l.Nodup) (hi : l[i]? = some k) :
-    x ∈ l.eraseIdx i ↔ x ∈ l ∧ x ≠ k := by
-  induction l generalizing i with
-  | nil => simp at hi
+theorem serve_nil (cfg : Cfg) (key value : Bytes) (st : List Entry) (acc : List Req × Option Nat) :
+    serve cfg key value [] st acc = (st, acc, true) := rfl
+
+theorem serve_cons_none (cfg : Cfg) (key value : Bytes) (b : Bkt) (bs : List Bkt) (st : List Entry)
+    (acc : List Req × Option Nat) (h : cfg.refs b value = none) :
+    serve cfg key value (b :: bs) st acc = ((b, key, value) :: st, acc, false) := by
+  simp [serve, h]
+
+theorem serve_cons_some (cfg : Cfg) (key value : Bytes) (b : Bkt) (bs : List Bkt) (st : List Entry)
+    (acc : List Req × Option Nat) (ps : List Ref) (h : cfg.refs b value = some ps) :
+    serve cfg key value (b :: bs) st acc =
+      serve cfg key value bs ((b, key, value) :: st) (resolveRefs cfg ((b, key, value) :: st) acc ps) := by
+  simp [serve, h]
+
+/-- the loop only adds copies of the delivered payload, under the delivered key, into buckets of
+    the request -/
+theorem serve_store (cfg : Cfg) (key value : Bytes) (bkts : List Bkt) :
+    ∀ (st : List Entry) (acc : List Req × Option Nat),
+      ∃ bs : List Bkt, (serve cfg key value bkts st acc).1 = bs.map (fun b => (b, key, value)) ++ st ∧
+        ∀ b ∈ bs, b ∈ bkts := by
+  induction bkts with
+  | nil => intro st acc; exact ⟨[], rfl, by simp⟩
+  | cons b bs ih =>
+    intro st acc
+    cases hr : cfg.refs b value with
+    | none =>
+      rw [serve_cons_none _ _ _ _ _ _ _ hr]
+      exact ⟨[b], rfl, by simp⟩
+    | some ps =>
+      rw [serve_cons_some _ _ _ _ _ _ _ ps hr]
+      obtain ⟨bs', he, hb⟩ := ih ((b, key, value) :: st) (resolveRefs cfg ((b, key, value) :: st) acc ps)
+      refine ⟨bs' ++ [b], ?_, ?_⟩
+      · rw [he]; simp
+      · intro x hx
+        rcases List.mem_append.mp hx with hx | hx
+        · exact List.mem_cons_of_mem _ (hb x hx)
+        · simp at hx; subst hx; exact List.mem_cons_self
+
+theorem serve_store_mono (cfg : Cfg) (key value : Bytes) (bkts : List Bkt) (st : List Entry)
+    (acc : List Req × Option Nat) : ∀ e, e ∈ st → e ∈ (serve cfg key value bkts st acc).1 := by
+  obtain ⟨bs, he, _⟩ := serve_store cfg key value bkts st acc
+  intro e h; rw [he]; exact List.mem_append.mpr (Or.inr h)
+
+theorem serve_store_new (cfg : Cfg) (key value : Bytes) (bkts : List Bkt) (st : List Entry)
+    (acc : List Req × Option Nat) : ∀ e, e ∈ (serve cfg key value bkts st acc).1 →
+      e ∈ st ∨ ∃ b ∈ bkts, e = (b, key, value) := by
+  obtain ⟨bs, he, hb⟩ := serve_store cfg key value bkts st acc
+  intro e h; rw [he] at h
+  rcases List.mem_append.mp h with h | h
+  · obtain ⟨b, hbm, rfl⟩ := List.mem_map.mp h
+    exact Or.inr ⟨b, hb b hbm, rfl⟩
+  · exact Or.inl h
+
+theorem serve_mono (cfg : Cfg) (key value : Bytes) (bkts : List Bkt) :
+    ∀ (st : List Entry) (acc : List Req × Option Nat) (p : Ref),
+      Pending acc.1 p → Pending (serve cfg key value bkts st acc).2.1.1 p := by
+  induction bkts with
+  | nil => intro st acc p h; exact h
+  | cons b bs ih =>
+    intro st acc p h
+    cases hr : cfg.refs b value with
+    | none => rw [serve_cons_none _ _ _ _ _ _ _ hr]; exact h
+    | some ps =>
+      rw [serve_cons_some _ _ _ _ _ _ _ ps hr]
+      exact ih _ _ p (resolveRefs_mono cfg _ ps acc p h)
+
+theorem serve_nodup (cfg : Cfg) (key value : Bytes) (bkts : List Bkt) :
+    ∀ (st : List Entry) (acc : List Req × Option Nat),
+      (keys acc.1).Nodup → (keys (serve cfg key value bkts st acc).2.1.1).Nodup := by
+  induction bkts with
+  | nil => intro st acc h; exact h
+  | cons b bs ih =>
+    intro st acc h
+    cases hr : cfg.refs b value with
+    | none => rw [serve_cons_none _ _ _ _ _ _ _ hr]; exact h
+    | some ps =>
+      rw [serve_cons_some _ _ _ _ _ _ _ ps hr]
+      exact ih _ _ (resolveRefs_nodup cfg _ ps acc h)
+
+theorem serve_nonempty (cfg : Cfg) (key value : Bytes) (bkts : List Bkt) :
+    ∀ (st : List Entry) (acc : List Req × Option Nat),
+      (∀ r ∈ acc.1, r.bkts ≠ []) → ∀ r ∈ (serve cfg key value bkts st acc).2.1.1, r.bkts ≠ [] := by
+  induction bkts with
+  | nil => intro st acc h; exact h
+  | cons b bs ih =>
+    intro st acc h
+    cases hr : cfg.refs b value with
+    | none => rw [serve_cons_none _ _ _ _ _ _ _ hr]; exact h
+    | some ps =>
+      rw [serve_cons_some _ _ _ _ _ _ _ ps hr]
+      exact ih _ _ (resolveRefs_nonempty cfg _ ps acc h)
+
+/-- a loop that ran to its end served every bucket of the request -/
+theorem serve_all (cfg : Cfg) (key value : Bytes) (bkts : List Bkt) :
+    ∀ (st : List Entry) (acc : List Req × Option Nat),
+      (serve cfg key value bkts st acc).2.2 = true →
+        ∀ b ∈ bkts, (b, key, value) ∈ (serve cfg key value bkts st acc).1 := by
+  induction bkts with
+  | nil => intro st acc _ b hb; cases hb
+  | cons b0 bs ih =>
+    intro st acc hok b hb
+    cases hr : cfg.refs b0 value with
+    | none => rw [serve_cons_none _ _ _ _ _ _ _ hr] at hok; cases hok
+    | some ps =>
+      rw [serve_cons_some _ _ _ _ _ _ _ ps hr] at hok ⊢
+      rcases List.mem_cons.mp hb with rfl | hb
+      · exact serve_store_mono cfg key value bs _ _ _ List.mem_cons_self
+      · exact ih _ _ hok b hb
+
+/-- the loop fails exactly when some requester does not accept the payload -/
+theorem serve_ok_of_dec (cfg : Cfg) (key value : Bytes) (bkts : List Bkt) :
+    ∀ (st : List Entry) (acc : List Req × Option Nat),
+      (∀ b ∈ bkts, (cfg.refs b value).isSome = true) → (serve cfg key value bkts st acc).2.2 = true := by
+  induction bkts with
+  | nil => intro st acc _; rfl
+  | cons b0 bs ih =>
+    intro st acc h
+    cases hr : cfg.refs b0 value with
+    | none => have := h b0 List.mem_cons_self; rw [hr] at this; cases this
+    | some ps =>
+      rw [serve_cons_some _ _ _ _ _ _ _ ps hr]
+      exact ih _ _ (fun b hb => h b (List.mem_cons_of_mem _ hb))
+
+/-- every copy the loop stored has all its references present or requested at the end of the loop -/
+theorem serve_closed (cfg : Cfg) (key value : Bytes) (bkts : List Bkt) :
+    ∀ (st : List Entry) (acc : List Req × Option Nat) (e : Entry),
+      e ∈ (serve cfg key value bkts st acc).1 →
+      e ∈ st ∨ (e.2.1 = key ∧ e.2.2 = value ∧ e.1 ∈ bkts ∧
+        ∀ ps, cfg.refs e.1 value = some ps → ∀ c ∈ ps,
+          Has (serve cfg key value bkts st acc).1 c ∨ Pending (serve cfg key value bkts st acc).2.1.1 c) := by
+  induction bkts with
+  | nil => intro st acc e h; exact Or.inl h
+  | cons b bs ih =>
+    intro st acc e h
+    cases hr : cfg.refs b value with
+    | none =>
+      rw [serve_cons_none _ _ _ _ _ _ _ hr] at h ⊢
+      rcases List.mem_cons.mp h with rfl | h
+      · refine Or.inr ⟨rfl, rfl, List.mem_cons_self, ?_⟩
+        intro ps hps; rw [hr] at hps; cases hps
+      · exact Or.inl h
+    | some ps =>
+      rw [serve_cons_some _ _ _ _ _ _ _ ps hr] at h ⊢
+      rcases ih _ _ e h with h1 | ⟨h1, h2, h3, h4⟩
+      · rcases List.mem_cons.mp h1 with rfl | h1
+        · refine Or.inr ⟨rfl, rfl, List.mem_cons_self, ?_⟩
+          intro ps' hps' c hc
+          rw [hr] at hps'; cases hps'
+          rcases resolveRefs_covers cfg ((b, key, value) :: st) ps acc c hc with hc | hc
+          · exact Or.inl (hc.mono (serve_store_mono cfg key value bs _ _))
+          · exact Or.inr (serve_mono cfg key value bs _ _ c hc)
+        · exact Or.inl h1
+      · exact Or.inr ⟨h1, h2, List.mem_cons_of_mem _ h3, h4⟩
+
+/-- with a store of accepted payloads: a request the loop added is a reference of the delivered
+    payload (as decoded by a requester of the request) that was not stored before the loop -/
+theorem serve_new (cfg : Cfg) (key value : Bytes) (bkts : List Bkt) :
+    ∀ (st : List Entry) (acc : List Req × Option Nat) (p : Ref), AllDec cfg st →
+      Pending (serve cfg key value bkts st acc).2.1.1 p →
+      Pending acc.1 p ∨ ∃ b ∈ bkts, ∃ ps, cfg.refs b value = some ps ∧ p ∈ ps ∧ ¬ Has st p := by
+  induction bkts with
+  | nil => intro st acc p _ h; exact Or.inl h
+  | cons b bs ih =>
+    intro st acc p hd h
+    cases hr : cfg.refs b value with
+    | none => rw [serve_cons_none _ _ _ _ _ _ _ hr] at h; exact Or.inl h
+    | some ps =>
+      rw [serve_cons_some _ _ _ _ _ _ _ ps hr] at h
+      have hd1 : AllDec cfg ((b, key, value) :: st) := by
+        intro e he
+        rcases List.mem_cons.mp he with rfl | he
+        · simp [hr]
+        · exact hd e he
+      have hsub : ∀ e, e ∈ st → e ∈ (b, key, value) :: st := fun e he => List.mem_cons_of_mem _ he
+      rcases ih _ _ p hd1 h with h1 | ⟨b', hb', ps', hps', hp, hn⟩
+      · rcases resolveRefs_new cfg _ ps acc p h1 with h2 | ⟨h2, h3⟩
+        · exact Or.inl h2
+        · refine Or.inr ⟨b, List.mem_cons_self, ps, hr, h2, ?_⟩
+          intro hh
+          have := has_present hd1 (hh.mono hsub)
+          rw [this] at h3; cases h3
+      · exact Or.inr ⟨b', List.mem_cons_of_mem _ hb', ps', hps', hp, fun hh => hn (hh.mono hsub)⟩
+
+/-! ### the request map: one request per key -/
+
+theorem find_none_keys {l : List Req} {k : Bytes} (h : l.find? (·.key == k) = none) : k ∉ keys l := by
+  intro hk
+  obtain ⟨r, hr, hrk⟩ := List.mem_map.mp hk
+  have := List.find?_eq_none.mp h r hr
+  simp [hrk] at this
+
+theorem find_some_key {l : List Req} {k : Bytes} {r : Req} (h : l.find? (·.key == k) = some r) :
+    r ∈ l ∧ r.key = k := by
+  refine ⟨List.mem_of_find?_eq_some h, ?_⟩
+  have := List.find?_some h
+  simpa using this
+
+/-- with one request per key, the request found for `k` carries every bucket pending for `k` -/
+theorem pending_find {l : List Req} {k : Bytes} {r : Req} (hn : (keys l).Nodup)
+    (h : l.find? (·.key == k) = some r) (b : Bkt) (hp : Pending l (b, k)) : b ∈ r.bkts := by
+  induction l with
+  | nil => simp at h
   | cons a as ih =>
-    rw [List.nodup_cons] at hn
-    cases i with
-    | zero =>
-      simp only [List.getElem?_cons_zero, Option.some.injEq] at hi
-      subst hi
-      simp only [List.eraseIdx_cons_zero, List.mem_cons]
-      constructor
-      · intro h; exact ⟨Or.inr h, fun e => hn.1 (e ▸ h)⟩
-      · rintro ⟨h | h, hne⟩
-        · exact absurd h hne
-        · exact h
-    | succ j =>
-      simp only [List.getElem?_cons_succ] at hi
-      simp only [List.eraseIdx_cons_succ, List.mem_cons]
-      have hk : k ∈ as := List.mem_of_getElem? hi
-      rw [ih j hn.2 hi]
-      constructor
-      · rintro (rfl | ⟨h, hne⟩)
-        · exact ⟨Or.inl rfl, fun e => hn.1 (e ▸ hk)⟩
-        · exact ⟨Or.inr h, hne⟩
-      · rintro ⟨rfl | h, hne⟩
-        · exact Or.inl rfl
-        · exact Or.inr ⟨h, hne⟩
+    unfold keys at hn
+    rw [List.map_cons, List.nodup_cons] at hn
+    obtain ⟨r', hm, hk, hb⟩ := hp
+    by_cases hak : a.key = k
+    · have : (a.key == k) = true := by simpa using hak
+      rw [List.find?_cons, this] at h
+      simp only [Option.some.injEq] at h
+      subst h
+      rcases List.mem_cons.mp hm with rfl | hm
+      · exact hb
+      · exfalso
+        apply hn.1
+        rw [hak]
+        exact List.mem_map.mpr ⟨r', hm, hk⟩
+    · have hf : (a.key == k) = false := by simpa using hak
+      rw [List.find?_cons, hf] at h
+      rcases List.mem_cons.mp hm with rfl | hm
+      · exact absurd hk hak
+      · exact ih hn.2 h ⟨r', hm, hk, hb⟩
 
-theorem nodup_eraseIdx (l : List Bytes) (i : Nat) (hn : l.Nodup) : (l.eraseIdx i).Nodup :=
-  hn.sublist (List.eraseIdx_sublist l i)
+/-- removing the served request: exactly the pendings of other keys remain -/
+theorem pending_eraseP (l : List Req) (k : Bytes) (p : Ref) (hn : (keys l).Nodup) :
+    Pending (l.eraseP (·.key == k)) p ↔ Pending l p ∧ p.2 ≠ k := by
+  induction l with
+  | nil => simp [Pending]
+  | cons a as ih =>
+    unfold keys at hn
+    rw [List.map_cons, List.nodup_cons] at hn
+    by_cases hak : a.key = k
+    · have e : (a :: as).eraseP (·.key == k) = as := by simp [hak]
+      rw [e]
+      constructor
+      · rintro ⟨r, hm, hk, hb⟩
+        refine ⟨⟨r, List.mem_cons_of_mem _ hm, hk, hb⟩, ?_⟩
+        intro hpk
+        apply hn.1
+        rw [hak, ← hpk, ← hk]
+        exact List.mem_map.mpr ⟨r, hm, rfl⟩
+      · rintro ⟨⟨r, hm, hk, hb⟩, hne⟩
+        rcases List.mem_cons.mp hm with rfl | hm
+        · exact absurd (hk.symm.trans hak) hne
+        · exact ⟨r, hm, hk, hb⟩
+    · have e : (a :: as).eraseP (·.key == k) = a :: as.eraseP (·.key == k) := by
+        simp [hak]
+      rw [e]
+      constructor
+      · rintro ⟨r, hm, hk, hb⟩
+        rcases List.mem_cons.mp hm with rfl | hm
+        · exact ⟨⟨r, List.mem_cons_self, hk, hb⟩, fun e => hak (hk.trans e)⟩
+        · obtain ⟨⟨r', hm', hk', hb'⟩, hne⟩ := (ih hn.2).mp ⟨r, hm, hk, hb⟩
+          exact ⟨⟨r', List.mem_cons_of_mem _ hm', hk', hb'⟩, hne⟩
+      · rintro ⟨⟨r, hm, hk, hb⟩, hne⟩
+        rcases List.mem_cons.mp hm with rfl | hm
+        · exact ⟨r, List.mem_cons_self, hk, hb⟩
+        · obtain ⟨r', hm', hk', hb'⟩ := (ih hn.2).mpr ⟨⟨r, hm, hk, hb⟩, hne⟩
+          exact ⟨r', List.mem_cons_of_mem _ hm', hk', hb'⟩
+
+theorem nodup_eraseP (l : List Req) (k : Bytes) (hn : (keys l).Nodup) :
+    (keys (l.eraseP (·.key == k))).Nodup := by
+  unfold keys at hn ⊢
+  exact hn.sublist ((List.eraseP_sublist (l := l)).map _)
 
 /-! ### the step, unfolded -/
 
-theorem idxOf?_some {l : List Bytes} {k : Bytes} {i : Nat} (h : l.idxOf? k = some i) :
-    l[i]? = some k := by
-  induction l generalizing i with
-  | nil => simp [List.idxOf?] at h
-  | cons a as ih =>
-    rw [List.idxOf?_cons] at h
-    by_cases hak : a = k
-    · subst hak
-      simp at h
-      subst h
-      simp
-    · have hak' : (a == k) = false := by simpa using hak
-      cases hj : as.idxOf? k with
-      | none => simp [hak', hj] at h
-      | some j =>
-        simp [hak', hj] at h
-        subst h
-        simpa using ih hj
-
-theorem idxOf?_none {l : List Bytes} {k : Bytes} (h : l.idxOf? k = none) : k ∉ l := by
-  induction l with
-  | nil => simp
-  | cons a as ih =>
-    rw [List.idxOf?_cons] at h
-    by_cases hak : a = k
-    · subst hak; simp at h
-    · have hak' : (a == k) = false := by simpa using hak
-      cases hj : as.idxOf? k with
-      | none =>
-        have := ih hj
-        simp only [List.mem_cons, not_or]
-        exact ⟨fun e => hak e.symm, this⟩
-      | some j => simp [hak', hj] at h
-
-theorem idxOf?_mem {l : List Bytes} {k : Bytes} (h : k ∈ l) : ∃ i, l.idxOf? k = some i := by
-  cases hi : l.idxOf? k with
-  | none => exact absurd h (idxOf?_none hi)
-  | some i => exact ⟨i, rfl⟩
+/-- the state of the requester loop of `onData cfg s _ v` when the request found is `r` -/
+def loop (cfg : Cfg) (s : St) (v : Bytes) (r : Req) :=
+  serve cfg (cfg.H v) v r.bkts s.store (s.reqs, some (s.reqs.findIdx (·.key == cfg.H v)))
 
 /-- complete case analysis of one `OnData` -/
-theorem onData_cases (cfg : Cfg) (s : St) (v : Bytes) :
-    (cfg.H v ∉ s.reqs ∧ onData cfg s v = (s, .noRequester)) ∨
-    (cfg.H v ∈ s.reqs ∧ cfg.refs v = none ∧
-      onData cfg s v = ({ s with store := (cfg.H v, v) :: s.store }, .decodeError)) ∨
-    (∃ i cs, s.reqs[i]? = some (cfg.H v) ∧ cfg.refs v = some cs ∧
-      onData cfg s v =
-        ({ store := (cfg.H v, v) :: s.store,
-           reqs := (resolveRefs ((cfg.H v, v) :: s.store) (s.reqs, some i) cs).1.eraseIdx i,
-           resolved := s.resolved + 1 }, .ok)) := by
-  cases hi : s.reqs.idxOf? (cfg.H v) with
-  | none => exact Or.inl ⟨idxOf?_none hi, by simp [onData, hi]⟩
-  | some i =>
-    have hmem : cfg.H v ∈ s.reqs := List.mem_of_getElem? (idxOf?_some hi)
-    cases hr : cfg.refs v with
-    | none => exact Or.inr (Or.inl ⟨hmem, rfl, by simp [onData, hi, hr]⟩)
-    | some cs => exact Or.inr (Or.inr ⟨i, cs, idxOf?_some hi, rfl, by simp [onData, hi, hr]⟩)
+theorem onData_cases (cfg : Cfg) (s : St) (bid : Bkt) (v : Bytes) :
+    (cfg.H v ∉ keys s.reqs ∧ onData cfg s bid v = (s, .noRequester)) ∨
+    (∃ r, r ∈ s.reqs ∧ r.key = cfg.H v ∧ s.reqs.find? (·.key == cfg.H v) = some r ∧
+      (((loop cfg s v r).2.2 = false ∧
+        onData cfg s bid v =
+          ({ s with store := (loop cfg s v r).1, reqs := (loop cfg s v r).2.1.1 }, .decodeError)) ∨
+       ((loop cfg s v r).2.2 = true ∧
+        onData cfg s bid v =
+          ({ store := (loop cfg s v r).1,
+             reqs := (loop cfg s v r).2.1.1.eraseP (·.key == cfg.H v),
+             resolved := s.resolved + 1 }, .ok)))) := by
+  cases hf : s.reqs.find? (·.key == cfg.H v) with
+  | none => exact Or.inl ⟨find_none_keys hf, by simp [onData, hf]⟩
+  | some r =>
+    obtain ⟨hm, hk⟩ := find_some_key hf
+    refine Or.inr ⟨r, hm, hk, rfl, ?_⟩
+    cases hok : (loop cfg s v r).2.2 with
+    | false =>
+      refine Or.inl ⟨rfl, ?_⟩
+      unfold loop at hok
+      simp [onData, hf, hok, loop]
+    | true =>
+      refine Or.inr ⟨rfl, ?_⟩
+      unfold loop at hok
+      simp [onData, hf, hok, loop]
 
 /-! ### invariants -/
 
-/-- reachability from the root through stored, decodable payloads -/
-inductive Reach (cfg : Cfg) (store : List (Bytes × Bytes)) (root : Bytes) : Bytes → Prop
-  | root : Reach cfg store root root
-  | step {k v cs c} : Reach cfg store root k → (k, v) ∈ store → cfg.refs v = some cs → c ∈ cs →
-      Reach cfg store root c
+/-- reachability from the trie root (bucket 0) through stored, accepted payloads -/
+inductive Reach (cfg : Cfg) (store : List Entry) (root : Bytes) : Ref → Prop
+  | root : Reach cfg store root (0, root)
+  | step {b k v ps c} : Reach cfg store root (b, k) → (b, k, v) ∈ store → cfg.refs b v = some ps →
+      c ∈ ps → Reach cfg store root c
 
-theorem Reach.mono {cfg : Cfg} {st st' : List (Bytes × Bytes)} {root k : Bytes}
-    (h : ∀ e, e ∈ st → e ∈ st') (r : Reach cfg st root k) : Reach cfg st' root k := by
+theorem Reach.mono {cfg : Cfg} {st st' : List Entry} {root : Bytes} {p : Ref}
+    (h : ∀ e, e ∈ st → e ∈ st') (r : Reach cfg st root p) : Reach cfg st' root p := by
   induction r with
   | root => exact .root
   | step _ hm hr hc ih => exact .step ih (h _ hm) hr hc
 
+/-- a payload never names its own hash as a reference into *another* bucket (it would have to
+    contain its own hash) -/
+def NoCrossSelfRef (cfg : Cfg) : Prop :=
+  ∀ b v ps, cfg.refs b v = some ps → ∀ c ∈ ps, c.2 = cfg.H v → c.1 = b
+
 /-- invariant that needs no assumption on what is delivered -/
 structure Inv (cfg : Cfg) (root : Bytes) (s : St) : Prop where
-  hashed : ∀ k v, (k, v) ∈ s.store → k = cfg.H v
-  closed : ∀ k v cs, (k, v) ∈ s.store → cfg.refs v = some cs → ∀ c ∈ cs, Has s.store c ∨ c ∈ s.reqs
-  rootOk : Has s.store root ∨ root ∈ s.reqs
-  nodup : s.reqs.Nodup
+  hashed : ∀ b k v, (b, k, v) ∈ s.store → k = cfg.H v
+  closed : ∀ b k v ps, (b, k, v) ∈ s.store → cfg.refs b v = some ps →
+    ∀ c ∈ ps, Has s.store c ∨ Pending s.reqs c
+  rootOk : Has s.store (0, root) ∨ Pending s.reqs (0, root)
+  nodup : (keys s.reqs).Nodup
+  nonempty : ∀ r ∈ s.reqs, r.bkts ≠ []
 
-theorem inv_start (cfg : Cfg) (root : Bytes) : Inv cfg root (start {} (some root)) := by
-  have hs : start {} (some root) = { store := [], reqs := [root], resolved := 0 } := by
-    simp [start, resolveRef, has, requestData]
-  rw [hs]
-  exact ⟨by simp, by simp, Or.inr (by simp), by simp⟩
+theorem start_eq (cfg : Cfg) (root : Bytes) :
+    start cfg {} (some root) = { store := [], reqs := [⟨root, [0]⟩], resolved := 0 } := by
+  simp [start, resolveRef, present, lookup, requestData, hasKey]
 
-theorem inv_onData (cfg : Cfg) (root : Bytes) (s : St) (v : Bytes) (h : Inv cfg root s) :
-    Inv cfg root (onData cfg s v).1 := by
-  rcases onData_cases cfg s v with ⟨_, he⟩ | ⟨_, hr, he⟩ | ⟨i, cs, hi, hr, he⟩
+theorem inv_start (cfg : Cfg) (root : Bytes) : Inv cfg root (start cfg {} (some root)) := by
+  rw [start_eq]
+  refine ⟨by simp, by simp, Or.inr ?_, by simp [keys], by simp⟩
+  exact ⟨⟨root, [0]⟩, by simp, rfl, by simp⟩
+
+theorem inv_onData (cfg : Cfg) (hself : NoCrossSelfRef cfg) (root : Bytes) (s : St) (bid : Bkt)
+    (v : Bytes) (h : Inv cfg root s) : Inv cfg root (onData cfg s bid v).1 := by
+  rcases onData_cases cfg s bid v with ⟨_, he⟩ | ⟨r, hrm, hrk, hf, ⟨hok, he⟩ | ⟨hok, he⟩⟩
   · rw [he]; exact h
-  · rw [he]
-    have hsub : ∀ e, e ∈ s.store → e ∈ (cfg.H v, v) :: s.store := fun e he => List.mem_cons_of_mem _ he
-    refine ⟨?_, ?_, ?_, h.nodup⟩
-    · intro k w hm
-      rcases List.mem_cons.mp hm with e | hm
+  · -- a requester failed: the request stays, stores and requests made so far stay
+    rw [he]
+    have hsub : ∀ e, e ∈ s.store → e ∈ (loop cfg s v r).1 := serve_store_mono cfg _ _ _ _ _
+    have hmono : ∀ p, Pending s.reqs p → Pending (loop cfg s v r).2.1.1 p :=
+      serve_mono cfg _ _ _ _ (_, _)
+    refine ⟨?_, ?_, ?_, ?_, ?_⟩
+    · intro b k w hm
+      rcases serve_store_new cfg (cfg.H v) v r.bkts s.store _ _ hm with hm | ⟨b', _, e⟩
+      · exact h.hashed b k w hm
       · cases e; rfl
-      · exact h.hashed k w hm
-    · intro k w cs hm hrw c hc
-      rcases List.mem_cons.mp hm with e | hm
-      · cases e; rw [hr] at hrw; cases hrw
-      · rcases h.closed k w cs hm hrw c hc with h1 | h1
+    · intro b k w ps hm hps c hc
+      rcases serve_closed cfg (cfg.H v) v r.bkts s.store _ _ hm with hm | ⟨_, h2, _, h4⟩
+      · rcases h.closed b k w ps hm hps c hc with h1 | h1
         · exact Or.inl (h1.mono hsub)
-        · exact Or.inr h1
+        · exact Or.inr (hmono c h1)
+      · simp only at h2; subst h2
+        exact h4 ps hps c hc
     · rcases h.rootOk with h1 | h1
       · exact Or.inl (h1.mono hsub)
-      · exact Or.inr h1
+      · exact Or.inr (hmono _ h1)
+    · exact serve_nodup cfg _ _ _ _ _ h.nodup
+    · exact serve_nonempty cfg _ _ _ _ _ h.nonempty
   · rw [he]
-    have hsub : ∀ e, e ∈ s.store → e ∈ (cfg.H v, v) :: s.store := fun e he => List.mem_cons_of_mem _ he
-    have hil : i < s.reqs.length := by
-      rcases List.getElem?_eq_some_iff.mp hi with ⟨hl, _⟩; exact hl
-    have hkeep := resolveRefs_keep ((cfg.H v, v) :: s.store) cs i (s.reqs, some i) (by simp [MarkGe]) hil
-    have hnd := resolveRefs_nodup ((cfg.H v, v) :: s.store) cs (s.reqs, some i) h.nodup
-    have hkey : (resolveRefs ((cfg.H v, v) :: s.store) (s.reqs, some i) cs).1[i]? = some (cfg.H v) := by
-      rw [hkeep]; exact hi
-    have hhas : Has ((cfg.H v, v) :: s.store) (cfg.H v) := ⟨v, List.mem_cons_self⟩
-    -- anything requested before or newly is still requested or is the key just stored
-    have keep : ∀ x, x ∈ (resolveRefs ((cfg.H v, v) :: s.store) (s.reqs, some i) cs).1 →
-        Has ((cfg.H v, v) :: s.store) x ∨
-          x ∈ (resolveRefs ((cfg.H v, v) :: s.store) (s.reqs, some i) cs).1.eraseIdx i := by
-      intro x hx
-      by_cases hxk : x = cfg.H v
-      · subst hxk; exact Or.inl hhas
-      · exact Or.inr ((mem_eraseIdx_nodup _ i _ x hnd hkey).mpr ⟨hx, hxk⟩)
-    refine ⟨?_, ?_, ?_, nodup_eraseIdx _ i hnd⟩
-    · intro k w hm
-      rcases List.mem_cons.mp hm with e | hm
+    have hsub : ∀ e, e ∈ s.store → e ∈ (loop cfg s v r).1 := serve_store_mono cfg _ _ _ _ _
+    have hmono : ∀ p, Pending s.reqs p → Pending (loop cfg s v r).2.1.1 p :=
+      serve_mono cfg _ _ _ _ (_, _)
+    have hnd : (keys (loop cfg s v r).2.1.1).Nodup := serve_nodup cfg _ _ _ _ (_, _) h.nodup
+    have hall : ∀ b ∈ r.bkts, (b, cfg.H v, v) ∈ (loop cfg s v r).1 := serve_all cfg _ _ _ _ _ hok
+    -- anything pending before the removal is still pending or is a served (bucket, key)
+    have keep : ∀ c : Ref, Pending (loop cfg s v r).2.1.1 c →
+        (c.2 = cfg.H v → Has (loop cfg s v r).1 c) →
+        Has (loop cfg s v r).1 c ∨ Pending ((loop cfg s v r).2.1.1.eraseP (·.key == cfg.H v)) c := by
+      intro c hc hk
+      by_cases hck : c.2 = cfg.H v
+      · exact Or.inl (hk hck)
+      · exact Or.inr ((pending_eraseP _ _ c hnd).mpr ⟨hc, hck⟩)
+    -- an old pending under the served key belongs to the served request
+    have old : ∀ c : Ref, Pending s.reqs c → c.2 = cfg.H v → Has (loop cfg s v r).1 c := by
+      intro c hc hck
+      have : c.1 ∈ r.bkts := pending_find h.nodup hf c.1 (by rw [← hck]; exact hc)
+      exact ⟨v, by rw [hck]; exact hall _ this⟩
+    refine ⟨?_, ?_, ?_, nodup_eraseP _ _ hnd, ?_⟩
+    · intro b k w hm
+      rcases serve_store_new cfg (cfg.H v) v r.bkts s.store _ _ hm with hm | ⟨b', _, e⟩
+      · exact h.hashed b k w hm
       · cases e; rfl
-      · exact h.hashed k w hm
-    · intro k w cs' hm hrw c hc
-      rcases List.mem_cons.mp hm with e | hm
-      · cases e
-        rw [hr] at hrw; cases hrw
-        rcases resolveRefs_covers ((cfg.H v, v) :: s.store) cs (s.reqs, some i) c hc with h1 | h1
+    · intro b k w ps hm hps c hc
+      rcases serve_closed cfg (cfg.H v) v r.bkts s.store _ _ hm with hm | ⟨_, h2, h3, h4⟩
+      · rcases h.closed b k w ps hm hps c hc with h1 | h1
+        · exact Or.inl (h1.mono hsub)
+        · exact keep c (hmono c h1) (old c h1)
+      · simp only at h2 h3; subst h2
+        rcases h4 ps hps c hc with h1 | h1
         · exact Or.inl h1
-        · exact keep c h1
-      · rcases h.closed k w cs' hm hrw c hc with h1 | h1
-        · exact Or.inl (h1.mono hsub)
-        · exact keep c (resolveRefs_mem _ cs _ c h1)
+        · refine keep c h1 ?_
+          intro hck
+          have hb : c.1 = b := hself b w ps hps c hc hck
+          exact ⟨w, by rw [hck, hb]; exact hall b h3⟩
     · rcases h.rootOk with h1 | h1
       · exact Or.inl (h1.mono hsub)
-      · exact keep root (resolveRefs_mem _ cs _ root h1)
+      · exact keep _ (hmono _ h1) (old _ h1)
+    · intro r' hr'
+      exact serve_nonempty cfg _ _ _ _ _ h.nonempty r' (List.mem_of_mem_eraseP hr')
 
-theorem inv_runAll (cfg : Cfg) (root : Bytes) (vs : List Bytes) :
+theorem inv_runAll (cfg : Cfg) (hself : NoCrossSelfRef cfg) (root : Bytes) (vs : List (Bkt × Bytes)) :
     ∀ s, Inv cfg root s → Inv cfg root (runAll cfg s vs) := by
   induction vs with
   | nil => intro s h; exact h
-  | cons v vs ih => intro s h; exact ih _ (inv_onData cfg root s v h)
+  | cons d vs ih => intro s h; exact ih _ (inv_onData cfg hself root s d.1 d.2 h)
 
 /-- no outstanding request ⇒ everything reachable from the root is stored -/
 theorem closed_of_no_requests (cfg : Cfg) (root : Bytes) (s : St) (h : Inv cfg root s)
-    (hz : s.reqs = []) : ∀ k, Reach cfg s.store root k → Has s.store k := by
-  intro k r
+    (hz : s.reqs = []) : ∀ p, Reach cfg s.store root p → Has s.store p := by
+  have np : ∀ p, ¬ Pending s.reqs p := by
+    rintro p ⟨r, hr, _⟩; rw [hz] at hr; cases hr
+  intro p r
   induction r with
-  | root => rcases h.rootOk with h1 | h1; exact h1; rw [hz] at h1; cases h1
+  | root => rcases h.rootOk with h1 | h1; exact h1; exact absurd h1 (np _)
   | step _ hm hr hc _ =>
-    rcases h.closed _ _ _ hm hr _ hc with h1 | h1
+    rcases h.closed _ _ _ _ hm hr _ hc with h1 | h1
     · exact h1
-    · rw [hz] at h1; cases h1
+    · exact absurd h1 (np _)
 
 /-! ### with a trusted source -/
 
-/-- the trusted state: a store closed under `refs`, hashed by `H`, one value per key -/
-structure Src (cfg : Cfg) (src : List (Bytes × Bytes)) (root : Bytes) : Prop where
-  hashed : ∀ k v, (k, v) ∈ src → k = cfg.H v
-  functional : ∀ k v v', (k, v) ∈ src → (k, v') ∈ src → v = v'
-  decodable : ∀ k v, (k, v) ∈ src → ∃ cs, cfg.refs v = some cs ∧ ∀ c ∈ cs, Has src c
-  root : Has src root
+/-- the trusted state: a per-bucket store closed under `refs`, hashed by `H`, one value per
+    (bucket, key), holding the trie root in bucket 0 -/
+structure Src (cfg : Cfg) (src : List Entry) (root : Bytes) : Prop where
+  hashed : ∀ b k v, (b, k, v) ∈ src → k = cfg.H v
+  functional : ∀ b k v v', (b, k, v) ∈ src → (b, k, v') ∈ src → v = v'
+  decodable : ∀ b k v, (b, k, v) ∈ src → ∃ ps, cfg.refs b v = some ps ∧ ∀ c ∈ ps, Has src c
+  root : Has src (0, root)
 
 /-- no delivered payload collides under `H` with a different payload of the source -/
-def NoCollision (cfg : Cfg) (src : List (Bytes × Bytes)) (vs : List Bytes) : Prop :=
-  ∀ v ∈ vs, ∀ k v', (k, v') ∈ src → cfg.H v = k → v = v'
+def NoCollision (cfg : Cfg) (src : List Entry) (vs : List (Bkt × Bytes)) : Prop :=
+  ∀ d ∈ vs, ∀ b k v', (b, k, v') ∈ src → cfg.H d.2 = k → d.2 = v'
 
-structure Inv2 (cfg : Cfg) (src : List (Bytes × Bytes)) (root : Bytes) (s : St) : Prop where
+structure Inv2 (cfg : Cfg) (src : List Entry) (root : Bytes) (s : St) : Prop where
   sub : ∀ e, e ∈ s.store → e ∈ src
-  reqsSrc : ∀ k, k ∈ s.reqs → Has src k
-  disjoint : ∀ k, k ∈ s.reqs → ¬ Has s.store k
-  reqReach : ∀ k, k ∈ s.reqs → Reach cfg s.store root k
+  reqsSrc : ∀ p, Pending s.reqs p → Has src p
+  disjoint : ∀ p, Pending s.reqs p → ¬ Has s.store p
+  reqReach : ∀ p, Pending s.reqs p → Reach cfg s.store root p
 
-theorem inv2_start (cfg : Cfg) (src : List (Bytes × Bytes)) (root : Bytes) (hs : Src cfg src root) :
-    Inv2 cfg src root (start {} (some root)) := by
-  have he : start {} (some root) = { store := [], reqs := [root], resolved := 0 } := by
-    simp [start, resolveRef, has, requestData]
-  rw [he]
+theorem allDec_of_sub {cfg : Cfg} {src : List Entry} {root : Bytes} (hs : Src cfg src root)
+    {st : List Entry} (h : ∀ e, e ∈ st → e ∈ src) : AllDec cfg st := by
+  intro e he
+  obtain ⟨b, k, v⟩ := e
+  obtain ⟨ps, hps, _⟩ := hs.decodable b k v (h _ he)
+  simp [hps]
+
+theorem inv2_start (cfg : Cfg) (src : List Entry) (root : Bytes) (hs : Src cfg src root) :
+    Inv2 cfg src root (start cfg {} (some root)) := by
+  rw [start_eq]
+  have hp : ∀ p : Ref, Pending [(⟨root, [0]⟩ : Req)] p → p = (0, root) := by
+    rintro ⟨b, k⟩ ⟨r, hr, hk, hb⟩
+    simp only [List.mem_singleton] at hr
+    subst hr
+    simp only [List.mem_singleton] at hb
+    simp only at hk
+    rw [hb, ← hk]
   refine ⟨by simp, ?_, ?_, ?_⟩
-  · intro k hk; simp at hk; subst hk; exact hs.root
-  · intro k _ ⟨v, hv⟩; simp at hv
-  · intro k hk; simp at hk; subst hk; exact .root
+  · intro p hpp; rw [hp p hpp]; exact hs.root
+  · intro p _ ⟨v, hv⟩; simp at hv
+  · intro p hpp; rw [hp p hpp]; exact .root
 
-theorem inv2_onData (cfg : Cfg) (src : List (Bytes × Bytes)) (root : Bytes) (hs : Src cfg src root)
-    (s : St) (v : Bytes) (hnc : ∀ k v', (k, v') ∈ src → cfg.H v = k → v = v')
+theorem inv2_onData (cfg : Cfg) (src : List Entry) (root : Bytes) (hs : Src cfg src root)
+    (s : St) (bid : Bkt) (v : Bytes) (hnc : ∀ b k v', (b, k, v') ∈ src → cfg.H v = k → v = v')
     (h1 : Inv cfg root s) (h : Inv2 cfg src root s) :
-    Inv2 cfg src root (onData cfg s v).1 ∧ (onData cfg s v).2 ≠ .decodeError := by
-  rcases onData_cases cfg s v with ⟨_, he⟩ | ⟨hmem, hr, _⟩ | ⟨i, cs, hi, hr, he⟩
+    Inv2 cfg src root (onData cfg s bid v).1 ∧ (onData cfg s bid v).2 ≠ .decodeError := by
+  rcases onData_cases cfg s bid v with ⟨_, he⟩ | ⟨r, hrm, hrk, hf, hcase⟩
   · rw [he]; exact ⟨h, by simp⟩
-  · -- impossible: a requested hash is a source key, so the payload is the source's and decodes
-    exfalso
-    obtain ⟨v', hv'⟩ := h.reqsSrc _ hmem
-    have : v = v' := hnc _ _ hv' rfl
-    subst this
-    obtain ⟨cs, hcs, _⟩ := hs.decodable _ _ hv'
-    rw [hr] at hcs; cases hcs
-  · rw [he]
+  · -- every bucket of the request is pending, so the payload is the source's in each of them
+    have hsrc : ∀ b ∈ r.bkts, (b, cfg.H v, v) ∈ src := by
+      intro b hb
+      obtain ⟨v', hv'⟩ := h.reqsSrc (b, cfg.H v) ⟨r, hrm, hrk, hb⟩
+      have : v = v' := hnc _ _ _ hv' rfl
+      subst this
+      exact hv'
+    have hdec : ∀ b ∈ r.bkts, (cfg.refs b v).isSome = true := by
+      intro b hb
+      obtain ⟨ps, hps, _⟩ := hs.decodable _ _ _ (hsrc b hb)
+      simp [hps]
+    have hok : (loop cfg s v r).2.2 = true := serve_ok_of_dec cfg _ _ _ _ _ hdec
+    rcases hcase with ⟨hbad, _⟩ | ⟨_, he⟩
+    · rw [hok] at hbad; cases hbad
+    rw [he]
     refine ⟨?_, by simp⟩
-    have hmem : cfg.H v ∈ s.reqs := List.mem_of_getElem? hi
-    obtain ⟨v', hv'⟩ := h.reqsSrc _ hmem
-    have hvv : v = v' := hnc _ _ hv' rfl
-    subst hvv
-    obtain ⟨cs', hcs', hcl⟩ := hs.decodable _ _ hv'
-    rw [hr] at hcs'; cases hcs'
-    have hsub : ∀ e, e ∈ s.store → e ∈ (cfg.H v, v) :: s.store := fun e he => List.mem_cons_of_mem _ he
-    have hil : i < s.reqs.length := by
-      rcases List.getElem?_eq_some_iff.mp hi with ⟨hl, _⟩; exact hl
-    have hkeep := resolveRefs_keep ((cfg.H v, v) :: s.store) cs i (s.reqs, some i) (by simp [MarkGe]) hil
-    have hnd := resolveRefs_nodup ((cfg.H v, v) :: s.store) cs (s.reqs, some i) h1.nodup
-    have hkey : (resolveRefs ((cfg.H v, v) :: s.store) (s.reqs, some i) cs).1[i]? = some (cfg.H v) := by
-      rw [hkeep]; exact hi
-    have hreachKey : Reach cfg ((cfg.H v, v) :: s.store) root (cfg.H v) := (h.reqReach _ hmem).mono hsub
+    have hsub : ∀ e, e ∈ s.store → e ∈ (loop cfg s v r).1 := serve_store_mono cfg _ _ _ _ _
+    have hnd : (keys (loop cfg s v r).2.1.1).Nodup := serve_nodup cfg _ _ _ _ (_, _) h1.nodup
+    have hall : ∀ b ∈ r.bkts, (b, cfg.H v, v) ∈ (loop cfg s v r).1 := serve_all cfg _ _ _ _ _ hok
+    have hdecst : AllDec cfg s.store := allDec_of_sub hs h.sub
+    -- what is pending after the step: pending before, or a fresh reference of the payload
+    have after : ∀ p : Ref, Pending ((loop cfg s v r).2.1.1.eraseP (·.key == cfg.H v)) p →
+        p.2 ≠ cfg.H v ∧ (Pending s.reqs p ∨
+          ∃ b ∈ r.bkts, ∃ ps, cfg.refs b v = some ps ∧ p ∈ ps ∧ ¬ Has s.store p) := by
+      intro p hp
+      obtain ⟨hp1, hne⟩ := (pending_eraseP _ _ p hnd).mp hp
+      exact ⟨hne, serve_new cfg (cfg.H v) v r.bkts s.store _ p hdecst hp1⟩
     refine ⟨?_, ?_, ?_, ?_⟩
     · intro e hm
-      rcases List.mem_cons.mp hm with e' | hm
-      · subst e'; exact hv'
+      rcases serve_store_new cfg (cfg.H v) v r.bkts s.store _ _ hm with hm | ⟨b, hb, rfl⟩
       · exact h.sub e hm
-    · intro k hk
-      have hk' := ((mem_eraseIdx_nodup _ i _ k hnd hkey).mp hk).1
-      rcases resolveRefs_new _ cs _ k hk' with h2 | ⟨h2, _⟩
-      · exact h.reqsSrc k h2
-      · exact hcl k h2
-    · intro k hk
-      obtain ⟨hk', hne⟩ := (mem_eraseIdx_nodup _ i _ k hnd hkey).mp hk
-      rcases resolveRefs_new _ cs _ k hk' with h2 | ⟨_, h2⟩
-      · rintro ⟨w, hw⟩
-        rcases List.mem_cons.mp hw with e | hw
-        · cases e; exact hne rfl
-        · exact h.disjoint k h2 ⟨w, hw⟩
-      · exact h2
-    · intro k hk
-      have hk' := ((mem_eraseIdx_nodup _ i _ k hnd hkey).mp hk).1
-      rcases resolveRefs_new _ cs _ k hk' with h2 | ⟨h2, _⟩
-      · exact (h.reqReach k h2).mono hsub
-      · exact .step hreachKey List.mem_cons_self hr h2
+      · exact hsrc b hb
+    · intro p hp
+      rcases (after p hp).2 with h2 | ⟨b, hb, ps, hps, hpm, _⟩
+      · exact h.reqsSrc p h2
+      · obtain ⟨ps', hps', hcl⟩ := hs.decodable _ _ _ (hsrc b hb)
+        rw [hps] at hps'; cases hps'
+        exact hcl p hpm
+    · intro p hp
+      obtain ⟨hne, h2⟩ := after p hp
+      have hold : ¬ Has s.store p := by
+        rcases h2 with h2 | ⟨_, _, _, _, _, h3⟩
+        · exact h.disjoint p h2
+        · exact h3
+      rintro ⟨w, hw⟩
+      rcases serve_store_new cfg (cfg.H v) v r.bkts s.store _ _ hw with hw | ⟨b, _, e⟩
+      · exact hold ⟨w, hw⟩
+      · exact hne (congrArg (·.2.1) e)
+    · intro p hp
+      rcases (after p hp).2 with h2 | ⟨b, hb, ps, hps, hpm, _⟩
+      · exact (h.reqReach p h2).mono hsub
+      · have hr : Reach cfg (loop cfg s v r).1 root (b, cfg.H v) :=
+          (h.reqReach (b, cfg.H v) ⟨r, hrm, hrk, hb⟩).mono hsub
+        exact .step hr (hall b hb) hps hpm
 
-theorem inv2_runAll (cfg : Cfg) (src : List (Bytes × Bytes)) (root : Bytes) (hs : Src cfg src root)
-    (vs : List Bytes) : ∀ s, NoCollision cfg src vs → Inv cfg root s → Inv2 cfg src root s →
+theorem inv2_runAll (cfg : Cfg) (hself : NoCrossSelfRef cfg) (src : List Entry) (root : Bytes)
+    (hs : Src cfg src root) (vs : List (Bkt × Bytes)) :
+    ∀ s, NoCollision cfg src vs → Inv cfg root s → Inv2 cfg src root s →
       Inv2 cfg src root (runAll cfg s vs) := by
   induction vs with
   | nil => intro s _ _ h; exact h
-  | cons v vs ih =>
+  | cons d vs ih =>
     intro s hnc h1 h
-    have hv := hnc v List.mem_cons_self
-    exact ih _ (fun w hw => hnc w (List.mem_cons_of_mem _ hw)) (inv_onData cfg root s v h1)
-      (inv2_onData cfg src root hs s v hv h1 h).1
+    have hv := hnc d List.mem_cons_self
+    exact ih _ (fun w hw => hnc w (List.mem_cons_of_mem _ hw)) (inv_onData cfg hself root s d.1 d.2 h1)
+      (inv2_onData cfg src root hs s d.1 d.2 hv h1 h).1
 
 end Goloop.C20
